@@ -1,0 +1,62 @@
+//go:build verif
+
+package verifhook
+
+import "sort"
+
+const On = true
+
+var (
+	YFn     func(site string)
+	SpawnFn func(site string)
+	EnterFn func(site string)
+	ExitFn  func()
+	EvFn    func(site, detail string)
+	PollFn  func(n int) []int
+	OrderFn func(n int, less func(i, j int) bool, swap func(i, j int))
+)
+
+func Y(site string) {
+	if f := YFn; f != nil {
+		f(site)
+	}
+}
+func Spawn(site string) {
+	if f := SpawnFn; f != nil {
+		f(site)
+	}
+}
+func Enter(site string) {
+	if f := EnterFn; f != nil {
+		f(site)
+	}
+}
+func Exit() {
+	if f := ExitFn; f != nil {
+		f()
+	}
+}
+func Ev(site, detail string) {
+	if f := EvFn; f != nil {
+		f(site, detail)
+	}
+}
+func Poll(n int) []int {
+	if f := PollFn; f != nil {
+		return f(n)
+	}
+	return nil
+}
+func Order(n int, less func(i, j int) bool, swap func(i, j int)) {
+	if f := OrderFn; f != nil {
+		f(n, less, swap)
+	}
+}
+func SortedKeys[V any](m map[string]V) []string {
+	ks := make([]string, 0, len(m))
+	for k := range m {
+		ks = append(ks, k)
+	}
+	sort.Strings(ks)
+	return ks
+}
